@@ -131,6 +131,7 @@ func c20Prog(r *Rng, idx int) *Prog {
 	for _, c := range p.Root.Cmds {
 		c.ArgComp = []string{"zeta", "alpha", "alpine", "beta", "alpha"}
 		c.ArgCompFn = []string{"alpine", "dyn"}
+		c.ArgCompFnSplit = len(c.Name)%2 == 0
 	}
 	// the same word from several sources (command name, static list, dynamic function)
 	p.Root.ArgComp = []string{"zeta", "dup", "dup", "alpha"}
